@@ -398,6 +398,42 @@ func suiteWire(c *Ctx) {
 			tCs = append(tCs, tS(ids[k], sign(ids[k], refRaw(protocol.LEAN_HELIX_COMMIT, v))))
 		}
 		emit("commit", fmt.Sprintf("CM(%s;%s;%s)", tR(protocol.LEAN_HELIX_COMMIT, inst, h, v, hash), tCs[0], wx(cms[0].Content().Share())), cms[0], km)
+		// received variants: the same field values in other bytes (non-zero alignment slack, or trailing
+		// bytes inside the header), signed by the sender over exactly those bytes.  If the receive gate
+		// lets one through, its signature must still verify once the reference is re-encoded from its
+		// field values (that is what prepared proofs and block proofs do) - otherwise the round trip loses it.
+		for vk := 0; vk < 2; vk++ {
+			for _, t := range []protocol.MessageType{protocol.LEAN_HELIX_PREPARE, protocol.LEAN_HELIX_COMMIT} {
+				canon := refRaw(t, v)
+				var alt []byte
+				if vk == 0 {
+					alt = slackBytes(canon)
+				} else {
+					alt = append(append([]byte{}, canon...), 0, 0, 0, 0)
+				}
+				if alt == nil {
+					continue
+				}
+				sender := &protocol.SenderSignatureBuilder{MemberId: ids[1], Signature: sign(ids[1], alt)}
+				var rawm *interfaces.ConsensusRawMessage
+				if t == protocol.LEAN_HELIX_PREPARE {
+					rawm = interfaces.NewPrepareMessage((&protocol.PrepareContentBuilder{SignedHeader: protocol.BlockRefBuilderFromRaw(alt), Sender: sender}).Build()).ToConsensusRawMessage()
+				} else {
+					rawm = interfaces.NewCommitMessage((&protocol.CommitContentBuilder{SignedHeader: protocol.BlockRefBuilderFromRaw(alt), Sender: sender, Share: cms[0].Content().Share()}).Build()).ToConsensusRawMessage()
+				}
+				c.Class(fmt.Sprintf("variant/%d/%d", vk, t))
+				parsed, err := interfaces.ParseConsensusMessage(rawm)
+				if err != nil || parsed == nil {
+					continue // dropped at the gate: nothing can be lost
+				}
+				c.Nontrivial(fmt.Sprintf("variant-accepted/%d/%d", vk, t))
+				if km.VerifyConsensusMessage(h, canon, sender.Build()) != nil {
+					c.Violation("C20", "accepted-content-loses-signature-on-reencoding",
+						fmt.Sprintf("a %v whose signed header is not in the builders' encoding (variant %d) passes the receive gate; re-encoded from its field values (as proofs do) the sender's signature no longer verifies", t, vk),
+						"content="+hex.EncodeToString(rawm.Content))
+				}
+			}
+		}
 		bp := blockproof.GenerateLeanHelixBlockProof(km, cms)
 		bpRaw := append([]byte{}, bp.Raw()...)
 		// the aggregate the proof must carry: over the random-seed shares of exactly these COMMITs (computed here, not read from the proof)
